@@ -69,6 +69,10 @@ func Create() *Builder {
 // iFace 必须是指针类型, 比如 i 为 interface 类型变量, iFace 传递&i
 func (b *Builder) Interface(iFace interface{}) *CachedInterfaceMocker {
 	mKey := reflect.TypeOf(iFace).String()
+	// 同一类型的不同接口变量需要各自独立的 Mocker, 因此 key 中需要带上变量地址
+	if v := reflect.ValueOf(iFace); v.Kind() == reflect.Ptr {
+		mKey = fmt.Sprintf("%s_%d", mKey, v.Pointer())
+	}
 	if mocker, ok := b.mockers[mKey]; ok && !mocker.Canceled() {
 		b.reset2CurPkg()
 		return mocker.(*CachedInterfaceMocker)
